@@ -411,6 +411,14 @@ func runCase(line string) (res string) {
 		out = doJSONDec(c)
 	case "JSONENC":
 		out = doJSONEnc(c)
+	case "REGEX":
+		out = doRegex(c)
+	case "STRFN":
+		out = doStrFn(c)
+	case "CAPFROM":
+		out = doCapFrom(c)
+	case "SORTF":
+		out = doSortF(c)
 	default:
 		out = "unsupported"
 	}
